@@ -547,7 +547,12 @@ def program_equivalence(prog1, prog2, compare_params=True, atol=1e-6, rtol=0):
             return False
 
         if compare_params:
-            p_match = np.allclose(n1["p"], n2["p"], atol=atol, rtol=rtol)
+            # compare parameter by parameter: an operation may have several array parameters of
+            # different shapes (e.g. the covariance matrix and means vector of ``Gaussian``)
+            p_match = len(n1["p"]) == len(n2["p"]) and all(
+                np.shape(a) == np.shape(b) and np.allclose(a, b, atol=atol, rtol=rtol)
+                for a, b in zip(n1["p"], n2["p"])
+            )
             return p_match and n1["m"] == n2["m"]
 
         return True
